@@ -219,7 +219,7 @@ func (e *cellEnv) fnResultUnder(fn *ssa.Function, depth int) (lin, bool) {
 				okAll = false
 				return
 			}
-			v, ok := sub.intUnder(t.Results[0], depth+1)
+			v, ok := sub.intUnder(retResult(t, 0), depth+1)
 			if !ok {
 				okAll = false
 				return
@@ -652,7 +652,7 @@ func ruleP18Cells(p *Prog, r *Report) {
 		nAgg++
 		k, okK := int64(0), false
 		for _, ret := range returnsOf(f) {
-			if c, isK := constInt(ret.Results[0]); isK && (!okK || c == k) {
+			if c, isK := constInt(retResult(ret, 0)); isK && (!okK || c == k) {
 				k, okK = c, true
 			} else {
 				okK = false
